@@ -80,13 +80,33 @@ def run_job(job):
                 viol.append({"sig": "C01 setup_new failed", "what": "ServerSetup::new failed: %s" % dict(st)})
                 continue
             spk = st.pk
+            # how the server came by its setup: fresh, rebuilt around an existing key, restored from bytes / serde,
+            # or holding its key behind the external-key interface
+            route = ["new", "deserialize", "new_with_key", "json", "external-key", "bincode"][wi % 6]
+            if route == "deserialize":
+                rr = s.de("setup", bytes.fromhex(st.ser), out="S")
+            elif route in ("json", "bincode"):
+                d = s.ser("S", route).data
+                rr = s.de("setup", d if route == "json" else bytes.fromhex(d), codec=route, out="S")
+            elif route in ("new_with_key", "external-key"):
+                sk = bytes.fromhex(st.ser)[sz.nh:sz.nh + sz.nsk]
+                rr = s.cmd("setup_new_with_key", rng=rng, sk=sk, ext=(route == "external-key"), out="S")
+            else:
+                rr = st
+            evals += 1
+            if rr.failed:
+                viol.append({"sig": "C01 server setup route %s failed" % route, "what": "%s: %s" % (su, dict(rr))})
+                continue
+            if route in ("new_with_key", "external-key") and rr.pk != spk:
+                viol.append({"sig": "C01 setup rebuilt around the same key reports another public key", "what": "%s: %s vs %s" % (su, rr.pk, spk)})
+            stats["by_class"]["setup:" + route] = stats["by_class"].get("setup:" + route, 0) + 1
             # registration: "DEFAULT" identity = absent at registration, explicit spelling at login
             ru = None if idu[1] == "DEFAULT" else idu[1]
             rs = None if ids_[1] == "DEFAULT" else ids_[1]
             reg = proto.register(s, rng, "S", pw[1], cred[1], id_u=ru, id_s=rs, ksf=ksf, wire=wire, tag="g")
-            desc = (pw[0], cred[0], idu[0], ids_[0], ctx[0], wire, str(ksf))
+            desc = (pw[0], cred[0], idu[0], ids_[0], ctx[0], wire, str(ksf), route)
             case = {"suite": su, "world": wi, "pw": pw[0], "cred": cred[0], "id_u": idu[0], "id_s": ids_[0],
-                    "ctx": ctx[0], "wire": wire, "ksf": ksf}
+                    "ctx": ctx[0], "wire": wire, "ksf": ksf, "setup_route": route}
             evals += len(reg.steps)
             if not reg.ok:
                 viol.append({"sig": "C01 registration step failed %s" % reg.failed_at,
